@@ -211,6 +211,12 @@ def normAngleSigned (x : α) : α :=
 /-- `math::sigfigs(x, 4)` : `(x * 10000).round() / 10000` (round half away from zero) -/
 def sigfigs (x : α) : α := Transc.round (x * 10000.0) / 10000.0
 
+/-- `Apodization → ApodizationConfig`: the Gaussian width is a length in µm (rounded like the other
+lengths since the `fix:` for D6b), the dimensionless window parameters are carried over -/
+def Apod.toCfg : Apod α → Apod α
+  | .gaussian fwhm => .gaussian (sigfigs (fwhm / micro))
+  | a => a
+
 /-- `vacuum_wavelength_to_frequency` and its inverse (`n = ONE`) -/
 def wlToFreq (lam : α) : α := twoPiC / (lam * 1.0)
 def freqToWl (om : α) : α := twoPiC / (om * 1.0)
@@ -259,10 +265,6 @@ def signMul (neg : Bool) (x : α) : α := if neg then x * (-1.0) else x * 1.0
 /-- `ApodizationConfig → Apodization` -/
 def Apod.ofCfg : Apod α → Apod α
   | .gaussian fwhmUm => .gaussian (fwhmUm * micro)
-  | a => a
-/-- `Apodization → ApodizationConfig` (not rounded) -/
-def Apod.toCfg : Apod α → Apod α
-  | .gaussian fwhm => .gaussian (fwhm / micro)
   | a => a
 
 /-! ## the numeric sub-routines -/
